@@ -163,7 +163,8 @@ def _build_locked(root, bdir, variant, verbose, want):
     for s in ksrcs:
         o = os.path.join(bdir, "obj", "k", os.path.basename(s)[:-4] + ".o")
         kobjs.append(o)
-        jobs.append((s, o, fl, incs))
+        extra = SAN_EXCEPTIONS.get(os.path.relpath(s, root), []) if variant == "san" else []
+        jobs.append((s, o, fl + extra, incs))
     if "awkward" in want:
         for s in asrcs:
             rel = os.path.relpath(s, root)
